@@ -953,6 +953,57 @@ def offsets_have_one_maker(F, res, rule="U10"):
     res.analysed["offset_reads_in_glas"] = m
 
 
+def columns_consult_the_width_table(F, res, rule="U11"):
+    """U11: every answer in UTF-16 columns went through the width table. A method of LineMap that reads the byte position of a line start
+    (an element of `line_starts`, not its length) and answers a column, a (line, column) pair or an offset is converting between bytes
+    and UTF-16 units; on every path to its return it must have asked the per-line table of wide characters. A path that answers from byte
+    arithmetic alone - an early return for the last line, for an empty line, for `col == 0` written as a shortcut that also catches
+    other cases - is right for ASCII lines only."""
+    LM = "glas::vfs::LineMap::"
+    n, bad = 0, []
+    for p_, f in sorted(F.fns.items()):
+        if not p_.startswith(LM) or not f.blocks or "{closure" in p_ or f.d.get("arg_count", 0) < 1:
+            continue
+        if not (f.local_ty(1) or "").endswith("LineMap") or (f.local_ty(1) or "").startswith("&mut"):
+            continue
+        out = f.d.get("output") or ""
+        if not ("u32" in out or "TextSize" in out):
+            continue
+        d = FL.Defs(f)
+
+        def reads(field, elem_only):
+            hits = []
+            for b, t in f.calls():
+                c = FL.short(callee(t) or callee_def(t) or "")
+                if not t["args"]:
+                    continue
+                o = d.origin_op(t["args"][0], through_calls=("Deref>::deref", "Deref::deref"))
+                names = [e.get("n") for e in (o.get("proj") or []) if isinstance(e, dict) and "f" in e] if o.get("k") == "field" else []
+                if field in names:
+                    last = c.rsplit("::", 1)[-1]
+                    if elem_only and last in ("len", "is_empty"):
+                        continue
+                    hits.append(b)
+            if elem_only:
+                # direct indexing self.line_starts[i] shows up as Index::index(&self.line_starts, i) (a call) - covered above
+                pass
+            return hits
+        starts = reads("line_starts", True)
+        if not starts:
+            continue
+        n += 1
+        table = reads("char_diffs", False)
+        rets = f.return_blocks()
+        # paths entry -> return that read a line start but never ask the table
+        leak = [r for r in rets if f.can_reach(0, [r], avoid=table) and any(f.can_reach(0, [sb], avoid=table) and (sb == r or f.can_reach(sb, [r], avoid=table)) for sb in starts)]
+        if not table or leak:
+            bad.append("%s: a path reads a line start and returns without consulting char_diffs" % FL.short(p_))
+    res.floor("LineMap methods that convert between byte positions and columns", n, 3)
+    res.ob(rule, "columns/consult-the-width-table", "every LineMap method that answers a column or an offset from the byte position of a line start asks the "
+           "per-line table of wide characters on every path to its return", n > 0 and not bad, where="crates/glas/src/vfs.rs",
+           how="%d methods, no path round the table" % n if not bad else "; ".join(bad))
+
+
 def run(F, res, tier):
     width_table(F, res)
     line_ends_and_bom(F, res)
@@ -964,6 +1015,7 @@ def run(F, res, tier):
     same_file(F, res)
     one_position_encoding(F, res)
     offsets_have_one_maker(F, res)
+    columns_consult_the_width_table(F, res)
     # the line map a conversion uses is the line map of the text it converts for: stored together with it (C13/D1) and re-read
     # after every change of one notification (C13/D2)
     _c13.text_and_line_map_written_together(F, res, rule="U7")
